@@ -382,6 +382,11 @@ type VerifyResult struct {
 
 // VerifyFn checks fn's body against contract c. All obligations are returned (not yet discharged).
 func (x *Exec) VerifyFn(fn *ssa.Function, c *FnContract) (res VerifyResult) {
+	return x.VerifyJob(fn, c, -1)
+}
+
+// VerifyJob verifies one case of a contract; op >= 0 selects the opcode of a harness lemma.
+func (x *Exec) VerifyJob(fn *ssa.Function, c *FnContract, op int) (res VerifyResult) {
 	res.Fn = fnName(fn)
 	defer func() {
 		if r := recover(); r != nil {
@@ -393,20 +398,24 @@ func (x *Exec) VerifyFn(fn *ssa.Function, c *FnContract) (res VerifyResult) {
 		}
 	}()
 	if len(c.Cases) == 0 {
-		x.verifyCase(fn, c, "", &res)
+		x.verifyCase(fn, c, "", op, &res)
 	} else {
 		for i, cs := range c.Cases {
-			x.verifyCase(fn, c, fmt.Sprintf("case%d:%s", i+1, cs), &res)
+			x.verifyCase(fn, c, fmt.Sprintf("case%d:%s", i+1, cs), op, &res)
 		}
 	}
 	return
 }
 
-func (x *Exec) verifyCase(fn *ssa.Function, c *FnContract, caseExpr string, res *VerifyResult) {
+func (x *Exec) verifyCase(fn *ssa.Function, c *FnContract, caseExpr string, op int, res *VerifyResult) {
 	st := NewState()
 	var argv []Value
-	for _, p := range fn.Params {
-		argv = append(argv, x.sym(st, p.Type(), p.Name()))
+	if c.Harness != "" {
+		argv = x.harnessArgs(st, fn, c, op)
+	} else {
+		for _, p := range fn.Params {
+			argv = append(argv, x.sym(st, p.Type(), p.Name()))
+		}
 	}
 	ctx := &verifyCtx{fn: fn, c: c, args: argv, headers: loopHeaders(fn), bodies: map[*ssa.BasicBlock]map[*ssa.BasicBlock]bool{}}
 	for _, h := range ctx.headers {
@@ -422,6 +431,10 @@ func (x *Exec) verifyCase(fn *ssa.Function, c *FnContract, caseExpr string, res 
 		i := strings.Index(caseExpr, ":")
 		st.Cond = append(st.Cond, e0.Formula(caseExpr[i+1:]))
 		suffix = "@" + caseExpr[:i]
+	}
+	if op >= 0 {
+		suffix += fmt.Sprintf("@op=%02X", op)
+		x.ctxSuffix = fmt.Sprintf("@op=%02X[%s]", op, fn.Name())
 	}
 	ctx.pre = st.clone()
 	// vacuity: the precondition must be satisfiable
@@ -487,7 +500,23 @@ func (x *Exec) verifyCase(fn *ssa.Function, c *FnContract, caseExpr string, res 
 		}
 	}
 	_ = panicConds
-	res.Obligs = append(res.Obligs, x.Obligs[mark:]...)
+	// obligations with the same name (same clause / site reached along several paths) are one obligation
+	byName := map[string]int{}
+	var merged []Oblig
+	for _, o := range x.Obligs[mark:] {
+		if i, ok := byName[o.Name]; ok && o.Kind != "cover" {
+			m := &merged[i]
+			if !m.PC.IsTrue() {
+				m.Cond = Implies(m.PC, m.Cond)
+				m.PC = True()
+			}
+			m.Cond = And(m.Cond, Implies(o.PC, o.Cond))
+			continue
+		}
+		byName[o.Name] = len(merged)
+		merged = append(merged, o)
+	}
+	res.Obligs = append(res.Obligs, merged...)
 }
 
 // frameObligs: every input location not covered by an assigns entry is unchanged
